@@ -8,7 +8,10 @@ RULE = ("one evaluation = one execution of a scripted job (call k of Execute ret
         "gap >= RetryInterval between attempts (one-sided), no attempt after the context ended during a retry wait, and after a panic: next fire time "
         "still executed, a sibling job runs, Wait returns. Exhaustive part: MaxRetries in {-1..4} x all scripts over {ok,err,panic} of length <= 5 "
         "(<= 6 thorough) x 3 modes, plus cancellations during the 1st..3rd wait and random longer cases; non-trivial = >= 2 attempts or a panic; "
-        "distinct by (mode, MaxRetries, script, cancel point)")
+        "distinct by (mode, MaxRetries, script, cancel point). Plus (qh retry5) the context given to Start ends by an expired DEADLINE (context.WithTimeout on it / "
+        "WithDeadline on its grandparent; no cancel(), no Stop()) x 3 modes: in the middle of the 1st / 2nd retry wait of an always-failing job (MaxRetries 3, RetryInterval 300 ms) "
+        "and while attempt 1 / 2 is running (RetryInterval 20 ms, 0, -1 ms; the attempt fails after it has seen the context end): every gap between attempts >= RetryInterval - 1 ms, "
+        "no two attempts entered with a context that has already ended, no attempt after the one during which the context ended (48 scenarios per round)")
 
 
 def run(ctx):
@@ -23,6 +26,8 @@ def run(ctx):
         for k in range(1, 4):
             results.append(generic.engine_run(ctx, "retry", ["--seed", str(ctx.seed * 1000 + k), "--maxlen", "0", "--n", "3000",
                                                              "--interval", "%dms" % k, "--par", str(8 * k)], "extra%d" % k, timeout=1500))
+    # the scheduler's context ends by an expired deadline instead of cancel()/Stop() (harness/cmd/qh/retry5.go)
+    results.append(generic.engine_run(ctx, "retry5", ["--seed", str(ctx.seed), "--n", "1" if not ctx.thorough else "6"], "deadline", timeout=300))
     bad = generic.proof_cov(ctx, extra_trusted=[
         "time.NewTimer fires no earlier than its duration, select/ctx.Done and defer/recover behave as the Go specification says (the model takes "
         "a completed wait, a cancelled wait and a recovered panic as atomic events; real-time gaps are observed by the harness, not proved)",
@@ -32,6 +37,7 @@ def run(ctx):
                   widen=lambda: (generic.engine_run(ctx, "retry", ["--seed", str(ctx.seed * 7919 + k), "--maxlen", "0", "--n", "4000"], "search%d" % k, timeout=1500)
                                  for k in range(1, 3)))
     generic.fill_coverage(ctx, results, RULE)
+    ctx.coverage["traces_validated_against_impl"] = sum(len(r.get("ops", [])) for r in results if not r.get("failed"))   # (the deadline scenarios have no model run)
     ok = [r for r in results if not r.get("failed")]
     gaps = [r["stats"].get("min_gap_between_attempts_ns", -1) for r in ok]
     gaps = [g for g in gaps if g >= 0]
